@@ -18,6 +18,7 @@ type State struct {
 	epoch    int
 	alloc    *Term
 	pc       []*Term
+	lastCall *State // snapshot taken before the most recent call by contract (units that use atcall())
 	closures map[*types.Var]*ast.FuncLit
 	locks    map[string]*Term
 	ghost    map[string]*Term
@@ -25,7 +26,7 @@ type State struct {
 }
 
 func (s *State) clone() *State {
-	n := &State{vars: make(map[*types.Var]*Term, len(s.vars)), heaps: make(map[string]*Term, len(s.heaps)), epoch: s.epoch, alloc: s.alloc, closures: map[*types.Var]*ast.FuncLit{}}
+	n := &State{vars: make(map[*types.Var]*Term, len(s.vars)), heaps: make(map[string]*Term, len(s.heaps)), epoch: s.epoch, alloc: s.alloc, closures: map[*types.Var]*ast.FuncLit{}, lastCall: s.lastCall}
 	for k, v := range s.vars {
 		n.vars[k] = v
 	}
@@ -135,6 +136,7 @@ type funSig struct {
 
 // Exec verifies one function (the "unit").
 type Exec struct {
+	used        map[string]bool // callee contracts applied at call sites of this unit
 	p           *Prog
 	top         *FuncInfo
 	frames      []*Frame
@@ -721,6 +723,23 @@ func (x *Exec) oblige(st *State, kind, label string, goal *Term, at ast.Node) {
 			}
 		}
 	}
+	if x.top.Flag("assume-casts") && kind == "cast" {
+		// the dynamic types behind the Kind() tags of the syntax trees are not
+		// modelled: type assertions are assumed to succeed (listed), every other
+		// run-time check of the unit is an obligation
+		msg := fmt.Sprintf("%s assumes that its type assertions succeed (cast obligations are not generated for it)", x.top.Name())
+		seen := false
+		for _, a := range x.assumed {
+			if a == msg {
+				seen = true
+			}
+		}
+		if !seen {
+			x.assumed = append(x.assumed, msg)
+		}
+		st.assume(goal)
+		return
+	}
 	if x.top.Flag("assume-safety") {
 		switch kind {
 		case "nil", "idx", "cast", "div", "shift", "unreachable", "arith", "ext":
@@ -797,6 +816,11 @@ func (x *Exec) merge(n int, states []*State) *State {
 	}
 	out := live[0].clone()
 	out.pc = append([]*Term(nil), live[0].pc[:n]...)
+	for _, s := range live[1:] {
+		if s.lastCall != out.lastCall {
+			out.lastCall = nil // no unique most recent call after the join
+		}
+	}
 	guards := make([]*Term, len(live))
 	for i, s := range live {
 		guards[i] = And(s.pc[n:]...)
